@@ -91,7 +91,7 @@ fn random_setter(rng: &mut Rng) -> Setter {
     let name = || -> &'static str { "" };
     let _ = name;
     let names = ["X-A", "x-a", "X-a", "X-B", "Accept", "User-Agent", "accept", "Cookie", "Accept-Encoding", "accept-encoding"];
-    let values: [&[u8]; 4] = [b"1", b"2", b"3", b"v v"];
+    let values: [&[u8]; 5] = [b"1", b"2", b"3", b"v v", b""];
     match rng.below(16) {
         0 | 1 | 2 => Setter::Header(rng.pick(&names).to_string(), rng.pick(&values).to_vec()),
         3 | 4 | 5 => Setter::HeaderAppend(rng.pick(&names).to_string(), rng.pick(&values).to_vec()),
@@ -128,7 +128,11 @@ fn apply_model(m: &mut Settings, headers: &mut BTreeMap<String, Vec<Vec<u8>>>, s
         Setter::Timeout(x) => m.timeout_ms = Some(*x),
         Setter::Proxy(x) => m.proxy = *x,
         Setter::Charset(x) => m.charset = *x,
-        Setter::Compression(x) => m.compression = *x,
+        Setter::Compression(x) => {
+            if cfg!(feature = "compress") {
+                m.compression = *x
+            }
+        }
         Setter::InvCerts(x) => m.inv_certs = *x,
         Setter::InvHosts(x) => m.inv_hosts = *x,
     }
@@ -150,7 +154,10 @@ fn apply_session(s: &mut Session, op: &Setter) {
         Setter::Timeout(x) => s.timeout(Duration::from_millis(*x)),
         Setter::Proxy(x) => s.proxy_settings(proxy_settings(*x)),
         Setter::Charset(x) => s.default_charset(charset(*x)),
+        #[cfg(feature = "compress")]
         Setter::Compression(x) => s.allow_compression(*x),
+        #[cfg(not(feature = "compress"))]
+        Setter::Compression(_) => {}
         Setter::InvCerts(x) => s.danger_accept_invalid_certs(*x),
         Setter::InvHosts(x) => s.danger_accept_invalid_hostnames(*x),
     }
@@ -168,7 +175,10 @@ fn apply_builder(b: RequestBuilder, op: &Setter) -> RequestBuilder {
         Setter::Timeout(x) => b.timeout(Duration::from_millis(*x)),
         Setter::Proxy(x) => b.proxy_settings(proxy_settings(*x)),
         Setter::Charset(x) => b.default_charset(charset(*x)),
+        #[cfg(feature = "compress")]
         Setter::Compression(x) => b.allow_compression(*x),
+        #[cfg(not(feature = "compress"))]
+        Setter::Compression(_) => b,
         Setter::InvCerts(x) => b.danger_accept_invalid_certs(*x),
         Setter::InvHosts(x) => b.danger_accept_invalid_hostnames(*x),
     }
@@ -308,7 +318,7 @@ fn send_with_probe(rb: RequestBuilder, ro_m: &Settings, headers: &BTreeMap<Strin
             }
             let d = world.dial(0);
             check_dial(&d.req, out);
-            let mut m = Model { method: method.to_owned(), path: "/c16".into(), allow_compression: ro_m.compression, body_kind: "none", ..Default::default() };
+            let mut m = Model { method: method.to_owned(), path: "/c16".into(), allow_compression: ro_m.compression && cfg!(feature = "compress"), body_kind: "none", ..Default::default() };
             m.headers = headers.clone();
             if ro_m.proxy != 0 {
                 m.absolute_prefix = Some("http://origin.test".into());
